@@ -85,6 +85,13 @@ FIXED_AXES = [(0.0, 0.0, 1.0), (1.0, 0.0, 0.0), (1 / math.sqrt(3),) * 3, (-2 / 7
 ORIGINS = [(0.0, 0.0, 0.0), (3.0, -1.0, 2.0), (391.58, 324.97, -12.89), (-7.5, 0.25, 40.0), (1.0, 2.0, 3.0)]
 
 
+# poses FAR from the origin (coordinates exactly representable in float32 and float64, up to 1e6): a closed form must not depend on
+# where the solid sits; relative tolerances (np.allclose: 1e-5 * |coordinate|) make centres a few units apart look "equal" out there
+FAR_POSES = [[(983040.0, 0.0, 0.0), (1.0, 0.0, 0.0)], [(0.0, 0.0, -524288.0), (0.0, 0.0, -1.0)],
+             [(65536.0, 131072.0, -262144.0), (-2 / 7, 3 / 7, 6 / 7)], [(1000000.0, -1000000.0, 1000000.0), (1 / math.sqrt(3),) * 3],
+             [(-100000.0, 100000.0, 100000.0), (0.0, -0.6, 0.8)]]
+
+
 def ok(got, want, scale):
     return abs(got - want) <= RTOL * abs(want) + 1e-12 * scale ** 3
 
@@ -282,6 +289,7 @@ def run(ctx):
         v = np.array([rng.gauss(0, 1) for _ in range(3)])
         v /= np.linalg.norm(v)
         poses.append([[rng.uniform(-50, 50) for _ in range(3)], [float(a) for a in v]])
+    poses += [[list(o), list(u)] for o, u in (FAR_POSES if ctx.tier != "quick" else FAR_POSES[:4])]
     n_or = len(poses)
     for k, p in enumerate(parameter_cases(ctx.tier, rng)):
         spec = dict(p, poses=poses, np_seed=ctx.seed + k)
@@ -295,7 +303,7 @@ def run(ctx):
                      "exactly-equal-radii and rim-on-sphere cases of the grid")
     ctx.rule("parameter grid: sphere radii x cap heights k*r/4 (k=0..8) x frustum (r1, r2, h) x two spheres (r1, r2, d in {0, nested, internally tangent, overlapping, "
              "nearly tangent, tangent, disjoint, sweep}) x sphere+frustum sharing one end (r, r_other/r in 0.25..3, h/r in 0.25..3 and the rim-on-sphere height, both ends) "
-             "plus seeded random parameters; each in %d poses (5 fixed axes/origins + seeded random). Non-trivial = genuine lens / proper cap / any frustum case" % n_or, exhaustive=False)
+             "plus seeded random parameters; each in %d poses (5 fixed axes/origins + seeded random + poses 1e5..1e6 away from the origin, axis-parallel and oblique). Non-trivial = genuine lens / proper cap / any frustum case" % n_or, exhaustive=False)
 
 
 def replay(spec):
